@@ -529,7 +529,7 @@ typedef enum
 } oid_e;
 
 /* Make the flag value, given the enum above */
-#   define EXT_CRIT_FLAG(A) (unsigned int) (1 << (A))
+#   define EXT_CRIT_FLAG(A) ((unsigned int) 1 << (A))
 
 /* Flags for known keyUsage (first byte) */
 #   define KEY_USAGE_DIGITAL_SIGNATURE     0x0080
